@@ -141,7 +141,8 @@ class FnLocks:
                 return st
             if c in MUTEX_UNLOCK:
                 mid = mutex_id(n.get("obj"), self.aliases)
-                return frozenset(x for x in st if not (x[0] == mid and x[2] == 0))
+                # a direct unlock releases the mutex whoever "holds" it in RAII terms
+                return frozenset(x for x in st if x[0] != mid)
         return st
 
     # ---- queries
